@@ -14,7 +14,13 @@ def install(w):
             result=str,
             pure=True,
             modifies=[],
-            ensures={"C09.comment_sql.total": "isinstance(result, str)"},
+            ensures={
+                "C09.comment_sql.total": "isinstance(result, str)",
+                # the comment is recorded for exactly catalog.schema.table, in that catalog's side table, replacing an earlier one
+                "C09.comment_sql.target": "('INSERT INTO ' + catalog + '.information_schema._fs_tables_ext') in result",
+                "C09.comment_sql.row": "(\"values ('\" + catalog + \"', '\" + schema + \"', '\" + table + \"', '\" + comment + \"')\") in result",
+                "C09.comment_sql.upsert": "'ON CONFLICT (ext_table_catalog, ext_table_schema, ext_table_name)' in result and 'DO UPDATE SET comment = excluded.comment' in result",
+            },
             props=["C09"],
         )
     )
@@ -26,7 +32,11 @@ def install(w):
             result=str,
             pure=True,
             modifies=[],
-            ensures={"C09.text_lengths_sql.total": "isinstance(result, str)"},
+            ensures={
+                "C09.text_lengths_sql.total": "isinstance(result, str)",
+                "C09.text_lengths_sql.target": "('INSERT INTO ' + catalog + '.information_schema._fs_columns_ext') in result",
+                "C09.text_lengths_sql.upsert": "'ON CONFLICT (ext_table_catalog, ext_table_schema, ext_table_name, ext_column_name)' in result and 'DO UPDATE SET ext_character_maximum_length = excluded.ext_character_maximum_length' in result",
+            },
             props=["C09"],
         )
     )
